@@ -114,9 +114,9 @@ func c10HardCert(c *Ctx, m *shimModel) {
 		// key and value of the insert
 		c.Check(strings.Contains(w.Expr(mu.Key), "Marshal>(p1)"), "R1.hardcert", "AddHardCert|table keyed by the offered blob's hash", w.Pos(mu.Pos()), "hash(key.Marshal())", "the table key is not the hash of the offered key")
 		okVal := false
-		if al, ok := mu.Value.(*ssa.Alloc); ok {
-			for fld, vals := range FieldStores(fn, al) {
-				if fld == "Certificate" && len(vals) == 1 && vals[0] == certV {
+		if al, ok := w.canon(fn, mu.Value).(*ssa.Alloc); ok {
+			for fld, vals := range w.FieldStoresDeep(fn, al) {
+				if fld == "Certificate" && len(vals) == 1 && w.SameValue(fn, vals[0], certV) {
 					okVal = true
 				}
 			}
@@ -157,7 +157,7 @@ func c10HardCert(c *Ctx, m *shimModel) {
 						return false
 					}
 					la := lenArg(bin.Y)
-					return la != nil && la == extractOf(list, 0) && isForwardRangeIndex(bin.X)
+					return la != nil && w.SameValue(fn, la, extractOf(list, 0)) && isForwardRangeIndex(bin.X)
 				})
 				c.Check(done, "R1.hardcert", "AddHardCert|key-not-found only after the whole listing was scanned", w.Pos(r.Pos()), "range over the listing exhausted", "key-not-found can be returned before every listed key was compared")
 			}
